@@ -184,6 +184,10 @@ def likelihood_objects(ctx, chi, rng, i):
     names = ll.get_parameter_names()
     ctx.spec('C17.LogLikelihood.count_eq_names', n == len(names), inp, {'n': n, 'names': names})
     x = np.abs(rng.uniform(0.5, 1.5, n))
+    if n and rng.random() < 0.3:
+        # vectors on and beyond the boundary of the support are vectors of the reported length too
+        x[int(rng.integers(n))] = float(rng.choice([0.0, -0.7]))
+        inp = dict(inp, x=x)
     try:
         with np.errstate(all='ignore'):
             ll(x)
@@ -256,6 +260,38 @@ def pre_reduced_error_models(ctx, chi, rng, i):
                      len(set(names)) == len(names), dict(inp, released=hidden), {'names': names, 'expected': want_full})
         except Exception as e:  # noqa
             ctx.spec(tg + '/raises', False, inp, {'raised': repr(e)[:200]})
+
+
+def filter_posterior_objects(ctx, chi, rng, i):
+    """PopulationFilterLogPosterior (generator of C13: every population composition, 1-3 observables,
+    1-4 times, fixed or free sigma): count = names = IDs = ID-prefixed names = accepted vector = gradient"""
+    from props import c13
+    c = c13.gen_case(chi, rng)
+    if c13.cfg_class(c.kinds, c.n_s) == 'wrapped_pooled':
+        return          # recorded finding of C13 (C13.special_dims/wrapped_pooled)
+    inp = {'object': 'PopulationFilterLogPosterior', 'kinds': c.kinds, 'n_observables': c.R, 'n_times': c.T,
+           'n_samples': c.n_s, 'sigma_free': c.sigma_free}
+    ctx.case('FilterPosterior/R%d' % c.R, nontrivial='F/%s/%d/%d/%d' % (c.kinds, c.R, c.T, c.n_s)
+             if (c.R > 1 or len(c.kinds) > 1) else False, sample=inp)
+    try:
+        post, n_pop, n_top, cfg = c13.build(chi, c, rng)
+        n = post.n_parameters()
+        names = post.get_parameter_names()
+        ids = post.get_id()
+        pref = post.get_parameter_names(include_ids=True)
+        ctx.spec('C17.FilterPosterior.count_eq_names_eq_ids', n == len(names) == len(ids) == len(pref), inp,
+                 {'n': n, 'names': len(names), 'ids': len(ids), 'prefixed': len(pref)})
+        ctx.spec('C17.FilterPosterior.prefixed_names_distinct', len(set(pref)) == len(pref), inp)
+        nt = post.n_parameters(exclude_bottom_level=True)
+        ctx.spec('C17.FilterPosterior.ids_mark_individual_entries',
+                 all(x is None for x in ids[:nt]) and all(x is not None for x in ids[nt:]), inp, {'ids': ids})
+        x = rng.uniform(0.6, 1.4, n)
+        with np.errstate(all='ignore'):
+            post(x)
+            _, g = post.evaluateS1(x)
+        ctx.spec('C17.FilterPosterior.gradient_length', len(g) == n, inp, {'len': len(g), 'n': n})
+    except Exception as e:  # noqa
+        ctx.spec('C17.FilterPosterior.raises', False, inp, {'raised': repr(e)[:200]})
 
 
 def hier_objects(ctx, chi, rng, i, subs=None, n_ids=None):
@@ -338,6 +374,9 @@ def hier_objects(ctx, chi, rng, i, subs=None, n_ids=None):
         ctx.agree('C17.n_parameters', n, mo[4] + mo[5], inp)
         ctx.agree('C17.names_length', len(names), len(mo[2]), inp)
         ctx.agree('C17.ids_length', len(ids), len(mo[3]), inp)
+    if n and rng.random() < 0.25:
+        x[int(rng.integers(n))] = float(rng.choice([0.0, -0.7]))
+        inp = dict(inp, x=x)
     try:
         with np.errstate(all='ignore'):
             v = hll(x)
@@ -479,6 +518,8 @@ def run(ctx):
             ctx.guard(predictive_objects, ctx, chi, ctx.sub_rng(4 * i + 3), i)
         if i % 6 == 1:
             ctx.guard(pre_reduced_error_models, ctx, chi, ctx.sub_rng(4 * i + 3), i)
+        if i % 3 == 2:
+            ctx.guard(filter_posterior_objects, ctx, chi, ctx.sub_rng(4 * i + 3), i)
     ctx.guard(sbml_objects, ctx, chi, ctx.sub_rng(10 ** 6), 12 if quick else 80)
     if not quick:
         opts = [(c, nd, 0, None) for c in range(7) for nd in (1, 2)]
